@@ -20,11 +20,14 @@ def pGd (m : List (Nat × List (Nat × Nat))) : String :=
     s!"{kv.1}>" ++ (if kv.2.isEmpty then "_" else
       joinWith ";" ((isort (fun (a b : Nat × Nat) => decide (a.1 ≤ b.1)) kv.2).map fun p => s!"{p.1}:{p.2}")))
 
-/-- `clu <graph> <weighted> <S>` -/
+/-- `clu <graph> <weighted> <S> <wdiv>` -/
 def handleClu : P String := do
   let (sp, nodes, edges) ← P.graph
   let weighted ← P.bool
   let S ← P.listOf P.nat
+  -- the implementation saw every weight divided by `wdiv` (a power of two); every weighted coefficient is normalised by the
+  -- largest weight, so the model and the definition, which work on the integer numerators, are unchanged
+  let _wdiv ← P.nat
   P.done
   let (so, a) := buildBoth sp nodes edges
   match so with
